@@ -1,4 +1,5 @@
 import ArcaModel.Props.C03
+import ArcaModel.Lemmas.UnitsPlain
 /-
   Round trip lemmas (C01): per schema kind, if Unserialize of the level below round-trips then so
   does this level.
@@ -640,6 +641,349 @@ end Arca
 namespace Arca
 open Out
 
+/-! ### one-of (discriminator inlined)
+
+With `inlined = true` the member object receives the WHOLE map, discriminator included, so the
+member must declare the discriminator as one of its own properties (otherwise it rejects the map
+for the undeclared key). Unserialize then overwrites the member's own conversion of that property
+with the one-of's conversion of the key (`setKey disc key.toV`); the round trip works because for a
+property whose Go kind is the kind of the keys both conversions coincide. -/
+
+/-- Does the type of a member's discriminator property have the Go kind of the one-of's keys?
+    This is the check of `validateSubtypeDiscriminatorInlineFields`
+    (`property.ReflectedType().Kind() == reflect.TypeOf(key).Kind()`): kind `string` is reflected by
+    string and string-enum schemas, kind `int64` by int and int-enum schemas (with or without units),
+    by nothing else. -/
+def discTyOK (intKey : Bool) : Ty → Bool
+  | .str _ _ _ => !intKey
+  | .enumStr _ => !intKey
+  | .int _ _ _ => intKey
+  | .enumInt _ _ => intKey
+  | _ => false
+
+/-- the object denoted by an object-like schema declares the property `disc`, with a type of the
+    key kind of the one-of (`intKey`) -/
+def declaresTyped (env : Env) (intKey : Bool) (disc : String) : Ty → Prop
+  | .obj _ props => ∃ p, lookupS disc props = some p ∧ discTyOK intKey p.ty = true
+  | .ref id => ∃ oid ps p, lookupS id env = some (.obj oid ps) ∧ lookupS disc ps = some p ∧ discTyOK intKey p.ty = true
+  | .scope objs root =>
+    ∃ oid ps p, lookupS root objs = some (.obj oid ps) ∧ lookupS disc ps = some p ∧ discTyOK intKey p.ty = true
+  | _ => False
+
+/-- what the inlined one-of level needs to know about a member: its Unserialize results are
+    property maps; it converts the discriminator property to exactly the value the one-of's own
+    key conversion yields; its Serialize keeps the key set and the discriminator value -/
+def MemberInl (rec : Rec) (x : Ext) (env : Env) (t : Ty) (intKey : Bool) (disc : String) : Prop :=
+  (∀ v r, rec .U env t v = .ok r → ∃ rm, r = toStrAny rm) ∧
+  (∀ m rm d key, rec .U env t (toStrAny m) = .ok (toStrAny rm) → lookupS disc m = some d →
+    DiscDenotes x intKey d key → lookupS disc rm = some key.toV) ∧
+  (∀ rm w, rec .S env t (toStrAny rm) = .ok w → ∃ wm, w = toStrAny wm ∧ (∀ k, hasKey k wm = hasKey k rm) ∧
+    (∀ d key, DiscDenotes x intKey d key → lookupS disc rm = some key.toV → lookupS disc wm = some key.toV))
+
+theorem strDenotes_fun {x : Ext} {d : V} {s s' : String} (h : StrDenotes x d s) (h' : StrDenotes x d s') : s = s' := by
+  have h1 := (stringInputMapper_ok_iff x d s).mpr h
+  have h2 := (stringInputMapper_ok_iff x d s').mpr h'
+  rw [h1] at h2
+  exact Out.ok.inj h2
+
+/-- an integer denoted under a units definition and also without one is the same integer -/
+theorem intDenotes_plain_eq {u : Option Units} {d : V} {k n : Int} (h1 : IntDenotes u d k) (h2 : IntDenotes none d n) :
+    k = n := by
+  cases h1 with
+  | int _ => cases h2; rfl
+  | float hf =>
+    cases h2 with
+    | float hf' => rw [hf] at hf'; exact Option.some.inj hf'
+  | strPlain _ hp =>
+    cases h2 with
+    | strPlain _ hp' => rw [hp] at hp'; exact Option.some.inj hp'
+    | strUnits hu _ => cases hu
+  | strUnits _ hp =>
+    cases h2 with
+    | strPlain _ hp' => exact UnitsPlain.unitsParseInt_plain _ _ _ _ hp' hp
+    | strUnits hu _ => cases hu
+  | bool => cases h2; rfl
+
+/-- Unserialize of a discriminator property of the key kind yields the one-of's converted key -/
+theorem discProp_unser (x : Ext) (n : Nat) (env : Env) (ik : Bool) (T : Ty) (hT : discTyOK ik T = true)
+    (d d' : V) (key : Key) (hk : DiscDenotes x ik d key) (h : run x n .U env T d = .ok d') : d' = key.toV := by
+  cases n with
+  | zero => simp [run] at h
+  | succ n =>
+    unfold DiscDenotes at hk
+    cases T <;> simp only [discTyOK, Bool.not_eq_true', Bool.false_eq_true] at hT
+    · -- int
+      subst hT
+      simp only [if_true] at hk
+      obtain ⟨k, hk1, rfl⟩ := hk
+      obtain ⟨k', hk', _, rfl⟩ := (C02_int_unser_iff x n env _ _ _ d d').mp h
+      rw [intDenotes_plain_eq hk' hk1]; rfl
+    · -- str
+      subst hT
+      simp only [Bool.false_eq_true, if_false] at hk
+      obtain ⟨s, hs, rfl⟩ := hk
+      obtain ⟨s', hs', _, rfl⟩ := (C02_str_unser_iff x n env _ _ _ d d').mp h
+      rw [strDenotes_fun hs' hs]; rfl
+    · -- enumInt
+      subst hT
+      simp only [if_true] at hk
+      obtain ⟨k, hk1, rfl⟩ := hk
+      obtain ⟨k', hk', _, rfl⟩ := (C02_enumInt_unser_iff x n env _ _ d d').mp h
+      rw [intDenotes_plain_eq hk' hk1]; rfl
+    · -- enumStr
+      subst hT
+      simp only [Bool.false_eq_true, if_false] at hk
+      obtain ⟨s, hs, rfl⟩ := hk
+      obtain ⟨s', hs', _, rfl⟩ := (C02_enumStr_unser_iff x n env _ d d').mp h
+      rw [strDenotes_fun hs' hs]; rfl
+
+/-- Serialize of a discriminator property of the key kind is the identity on a converted key -/
+theorem discProp_ser (x : Ext) (n : Nat) (env : Env) (ik : Bool) (T : Ty) (hT : discTyOK ik T = true)
+    (d e' : V) (key : Key) (hk : DiscDenotes x ik d key) (h : run x n .S env T key.toV = .ok e') : e' = key.toV := by
+  cases n with
+  | zero => simp [run] at h
+  | succ n =>
+    unfold DiscDenotes at hk
+    cases T <;> simp only [discTyOK, Bool.not_eq_true', Bool.false_eq_true] at hT
+    · -- int
+      subst hT
+      simp only [if_true] at hk
+      obtain ⟨k, hk1, rfl⟩ := hk
+      exact (((C02_int_native x n env _ _ _ k (intDenotes_inInt64 hk1)).2 e').mp h).2
+    · -- str
+      subst hT
+      simp only [Bool.false_eq_true, if_false] at hk
+      obtain ⟨s, _, rfl⟩ := hk
+      exact (((C02_str_native x n env _ _ _ s).2 e').mp h).2
+    · -- enumInt
+      subst hT
+      simp only [if_true] at hk
+      obtain ⟨k, hk1, rfl⟩ := hk
+      have hw := wrapInt64_of_inInt64 (intDenotes_inInt64 hk1)
+      simp only [run, runEnumInt, Key.toV, asInt, V.under, hw, Out.bind] at h
+      split at h
+      · simp at h; exact h.symm
+      · simp [cerr] at h
+    · -- enumStr
+      subst hT
+      simp only [Bool.false_eq_true, if_false] at hk
+      obtain ⟨s, _, rfl⟩ := hk
+      simp only [run, runEnumStr, Key.toV, asString, V.under, Out.bind] at h
+      split at h
+      · simp at h; exact h.symm
+      · simp [cerr] at h
+
+theorem allSV_lookup {f : String → V → Out V} {m m' : List (String × V)} (h : AllSV f m m') {k : String} {d : V}
+    (hl : lookupS k m = some d) : ∃ d', lookupS k m' = some d' ∧ f k d = .ok d' := by
+  induction h with
+  | nil => simp [lookupS] at hl
+  | @cons k0 v v' rest rest' hf _ ih =>
+    simp only [lookupS] at hl ⊢
+    split at hl
+    · rename_i hk
+      have : k = k0 := by simpa using hk
+      subst this
+      simp at hl; subst hl
+      exact ⟨v', by simp, hf⟩
+    · rename_i hk
+      simp only [hk, if_false, Bool.false_eq_true]
+      exact ih hl
+
+theorem toStrAny_inj {a b : List (String × V)} (h : toStrAny a = toStrAny b) : a = b := by
+  simp only [toStrAny, V.map.injEq, true_and] at h
+  induction a generalizing b with
+  | nil => cases b <;> simp_all
+  | cons p rest ih =>
+    cases b with
+    | nil => simp at h
+    | cons q rest' =>
+      obtain ⟨k1, v1⟩ := p
+      obtain ⟨k2, v2⟩ := q
+      simp only [List.map_cons, List.cons.injEq, Prod.mk.injEq, V.str.injEq] at h
+      obtain ⟨⟨hk, hv⟩, hr⟩ := h
+      rw [hk, hv, ih hr]
+
+theorem memberInl_obj (x : Ext) (n : Nat) (env : Env) (id : String) (props : List (String × PropT)) (ik : Bool)
+    (disc : String) (p : PropT) (hp : lookupS disc props = some p) (hT : discTyOK ik p.ty = true) :
+    MemberInl (run x (n + 1)) x env (.obj id props) ik disc := by
+  refine ⟨?_, ?_, ?_⟩
+  · intro v r h
+    simp only [run, runObj] at h
+    obtain ⟨m', _, h2⟩ := bind_eq_ok h
+    obtain ⟨_, _, h4⟩ := bind_eq_ok h2
+    simp at h4; subst h4
+    exact ⟨m', rfl⟩
+  · intro m rm d key h hl hk
+    obtain ⟨skvs, m1, m', hs, _, hdef, hfor, _, hr⟩ := (C03_obj_unser_iff x n env id props _ _ _).mp h
+    rw [strKeys_toStrAny] at hs
+    cases hs
+    have := toStrAny_inj hr
+    subst this
+    have hl1 := C03_default_keeps_supplied props _ m1 disc d hdef hl
+    obtain ⟨d', hl', hf⟩ := allSV_lookup (forSV_ok_iff.mp hfor) hl1
+    unfold objEntryU at hf
+    rw [hp] at hf
+    simp only at hf
+    split at hf
+    · simp [cerrAt] at hf
+    · rw [discProp_unser x n env ik p.ty hT d d' key hk (addSeg_eq_ok.mp hf)] at hl'
+      exact hl'
+  · intro rm w h
+    simp only [run, runObj, toStrAny, MapShape.strAny, strKeys_toStrAny] at h
+    obtain ⟨_, _, h2⟩ := bind_eq_ok h
+    obtain ⟨wm, h3, h4⟩ := bind_eq_ok h2
+    simp at h4
+    have hall := forSV_ok_iff.mp h3
+    refine ⟨wm, by simp [toStrAny, MapShape.strAny, h4], fun k => hasKey_eq_of_keys (allSV_keys hall) k, ?_⟩
+    intro d key hk hl
+    obtain ⟨e', hl', hf⟩ := allSV_lookup hall hl
+    unfold objEntry at hf
+    rw [hp] at hf
+    simp only at hf
+    rw [discProp_ser x n env ik p.ty hT d e' key hk (addSeg_eq_ok.mp hf)] at hl'
+    exact hl'
+
+theorem find_lookup_disc (disc : String) : ∀ (kvs : List (V × V)) (m : List (String × V)) (dk d : V),
+    strKeys? kvs = some m → kvs.find? (isDiscKey disc) = some (dk, d) → lookupS disc m = some d
+  | [], _, _, _, _, hf => by simp at hf
+  | (k, v) :: rest, m, dk, d, hs, hf => by
+    cases k <;> simp only [strKeys?, reduceCtorEq] at hs
+    rename_i s
+    cases hr : strKeys? rest with
+    | none => simp [hr] at hs
+    | some a =>
+      simp [hr] at hs
+      subst hs
+      simp only [List.find?_cons, isDiscKey] at hf
+      by_cases hsd : s = disc
+      · subst hsd
+        simp at hf
+        simp [lookupS, hf.2]
+      · have h1 : (s == disc) = false := by simpa using hsd
+        have h2 : (disc == s) = false := by simpa using (fun h : disc = s => hsd h.symm)
+        simp only [h1] at hf
+        simp only [lookupS, h2, if_false, Bool.false_eq_true]
+        exact find_lookup_disc disc rest a dk d hr hf
+
+theorem lookup_find_disc (disc : String) (d : V) : ∀ (m : List (String × V)), lookupS disc m = some d →
+    (m.map fun (kv : String × V) => (V.str kv.1, kv.2)).find? (isDiscKey disc) = some (V.str disc, d)
+  | [], h => by simp [lookupS] at h
+  | (k, v) :: rest, h => by
+    simp only [lookupS] at h
+    simp only [List.map_cons, List.find?_cons, isDiscKey]
+    by_cases hkd : k = disc
+    · subst hkd
+      simp at h
+      simp [h]
+    · have h1 : (k == disc) = false := by simpa using hkd
+      have h2 : (disc == k) = false := by simpa using (fun h : disc = k => hkd h.symm)
+      simp only [h2, if_false, Bool.false_eq_true] at h
+      simp only [h1]
+      exact lookup_find_disc disc d rest h
+
+theorem setKey_same {α} (k : String) (v : α) : ∀ (m : List (String × α)), lookupS k m = some v → setKey k v m = m
+  | [], h => by simp [lookupS] at h
+  | (k', v') :: rest, h => by
+    simp only [lookupS] at h
+    simp only [setKey]
+    split at h
+    · rename_i hk
+      have : k = k' := by simpa using hk
+      subst this
+      simp at h; subst h
+      simp
+    · rename_i hk
+      simp only [hk, if_false, Bool.false_eq_true]
+      rw [setKey_same k v rest h]
+
+theorem discDenotes_fun {x : Ext} {ik : Bool} {d : V} {k k' : Key} (h : DiscDenotes x ik d k) (h' : DiscDenotes x ik d k') :
+    k = k' := by
+  have h1 := (typedDisc_ok_iff x ik d k).mpr h
+  have h2 := (typedDisc_ok_iff x ik d k').mpr h'
+  rw [h1] at h2
+  exact Out.ok.inj h2
+
+theorem rt_oneOf_inl (x : Ext) (n : Nat) (env : Env) (intKey : Bool) (disc : String) (members : List (Key × Ty))
+    (hrt : ∀ m, m ∈ members → RT (run x n) env m.2)
+    (hmem : ∀ m, m ∈ members → MemberInl (run x n) x env m.2 intKey disc) :
+    RT (run x (n + 1)) env (.oneOf intKey disc true members) := by
+  intro v r h
+  -- the input is a map (everything else is rejected)
+  have hvm : ∃ sh kvs, v = .map sh kvs := by
+    simp only [run, runOneOf, oneOfUnser] at h
+    split at h
+    · simp [plain] at h
+    · split at h
+      · simp [cerr] at h
+      · rename_i sh kvs hm
+        cases v <;> simp [V.mapEntries?] at hm
+        obtain ⟨rfl, rfl⟩ := hm
+        exact ⟨_, _, rfl⟩
+  obtain ⟨sh, kvs, rfl⟩ := hvm
+  obtain ⟨hsh, dk, d, key, m, mt, mr, hfind, hkey, hm, hmt, hmr⟩ :=
+    C03_oneof_routes x n env intKey disc true members sh kvs r h
+  simp only [if_true] at hmr
+  have hmm : (key, mt) ∈ members := lookupK_mem hmt
+  obtain ⟨hU, hD, hS⟩ := hmem _ hmm
+  obtain ⟨rm, hrm⟩ := hU _ _ hmr
+  subst hrm
+  -- the member already converted the discriminator to the one-of's key
+  have hld : lookupS disc m = some d := find_lookup_disc disc kvs m dk d hm hfind
+  have hlk : lookupS disc rm = some key.toV := hD m rm d key hmr hld hkey
+  -- so attaching the converted discriminator changes nothing
+  have hr : r = toStrAny rm := by
+    have := C03_oneof_accepts x n env intKey disc true members sh kvs dk d key m rm mt hsh hfind hkey hm hmt
+      (by simp only [if_true]; exact hmr)
+    rw [this] at h
+    simp at h
+    rw [← h, setKey_same _ _ _ hlk]
+  subst hr
+  obtain ⟨hV, w, hSm, hUw⟩ := hrt _ hmm _ _ hmr
+  obtain ⟨wm, hwm, hwk, hwd⟩ := hS _ _ hSm
+  subst hwm
+  have hlw : lookupS disc wm = some key.toV := hwd d key hkey hlk
+  have hdw : hasKey disc wm = true := by simp [hasKey, hlw]
+  obtain ⟨htyped, hkey'⟩ := key_toV_typed x intKey d key hkey
+  have hsel : oneOfSelect (run x n) env intKey disc true members false rm = .ok (key, mt, rm) := by
+    simp only [oneOfSelect, hlk, Bool.false_eq_true, if_false, if_true]
+    unfold DiscDenotes at hkey'
+    by_cases hik : intKey = true
+    · simp only [hik, if_true] at hkey'
+      obtain ⟨k, _, hk⟩ := hkey'
+      subst hk
+      simp only [Key.toV, hik, if_true, hmt]
+    · simp only [hik, if_false, Bool.false_eq_true] at hkey'
+      obtain ⟨k, _, hk⟩ := hkey'
+      subst hk
+      simp only [Key.toV, hik, if_false, Bool.false_eq_true, hmt]
+  refine ⟨?_, toStrAny wm, ?_, ?_⟩
+  · simp only [run, runOneOf, toStrAny, MapShape.strAny, strKeys_toStrAny]
+    rw [hsel]
+    simp only [Out.bind]
+    have : run x n .V env mt (toStrAny rm) = done := hV
+    simp only [toStrAny, MapShape.strAny] at this
+    rw [this]
+    simp [done, addSeg]
+  · simp only [run, runOneOf, toStrAny, MapShape.strAny, strKeys_toStrAny]
+    rw [hsel]
+    simp only [Out.bind]
+    have : run x n .S env mt (toStrAny rm) = .ok (toStrAny wm) := hSm
+    simp only [toStrAny, MapShape.strAny] at this
+    rw [this]
+    simp only [strKeys_toStrAny, hdw, if_true]
+  · have hfind' := lookup_find_disc disc key.toV wm hlw
+    have := C03_oneof_accepts x n env intKey disc true members .strAny
+      (wm.map fun (kv : String × V) => (V.str kv.1, kv.2))
+      (V.str disc) key.toV key wm rm mt (Or.inr rfl) hfind' hkey'
+      (strKeys_toStrAny _) hmt (by simp only [if_true]; exact hUw)
+    simp only [toStrAny] at this ⊢
+    rw [this, setKey_same _ _ _ hlk]
+
+end Arca
+
+namespace Arca
+open Out
+
 /-! ### the induction over the schema -/
 
 /-- does the object denoted by an object-like schema declare the property `disc`? -/
@@ -649,8 +993,22 @@ def declares (env : Env) (disc : String) : Ty → Prop
   | .scope objs root => ∃ oid ps, lookupS root objs = some (.obj oid ps) ∧ hasKey disc ps = true
   | _ => False
 
-/-- Schemas covered by the round-trip theorem: as `WF`, with one-ofs whose discriminator is not
-    inlined (and whose members, as `ApplyNamespace` checks, do not declare the discriminator). -/
+/-- Schemas covered by the round-trip theorem: as `WF` (minus the condition on defaults, which the
+    round trip does not need), plus, for one-ofs, exactly what `ApplyNamespace`
+    (`validateSubtypeDiscriminatorInlineFields`) checks and panics on otherwise:
+
+    * `oneOf` (discriminator NOT inlined): every member is object-like and does NOT declare the
+      discriminator property;
+    * `oneOfInl` (discriminator inlined): every member is object-like and DECLARES the
+      discriminator property, with a type of the one-of's key kind (`declaresTyped`, `discTyOK`:
+      a string-keyed one-of needs a string or string-enum property, an int-keyed one-of an int or
+      int-enum property - units allowed).
+
+    Nothing else is required of an inlined discriminator property: it may be optional or required,
+    carry a default, bounds, a pattern, enum values excluding some keys, conflict / required-if
+    rules. (Where such a declaration excludes a key the member rejects the input at Unserialize, so
+    there is nothing to round-trip; a default never applies because the one-of itself rejects a
+    map without the discriminator.) -/
 inductive WF1 : Env → Ty → Prop
   | int {env a b u} : WF1 env (.int a b u)
   | float {env a b u} : WF1 env (.float a b u)
@@ -666,11 +1024,20 @@ inductive WF1 : Env → Ty → Prop
   | oneOf {env ik d members} :
       (∀ m, m ∈ members → WF1 env m.2) → (∀ m, m ∈ members → ObjLike env m.2) →
       (∀ m, m ∈ members → ¬ declares env d m.2) → WF1 env (.oneOf ik d false members)
+  | oneOfInl {env ik d members} :
+      (∀ m, m ∈ members → WF1 env m.2) → (∀ m, m ∈ members → declaresTyped env ik d m.2) →
+      WF1 env (.oneOf ik d true members)
   | ref {env id o} : lookupS id env = some o → WF1 env (.ref id)
   | scope {env objs root o} :
       lookupS root objs = some o → (∀ p, p ∈ objs → WF1 objs p.2) → WF1 env (.scope objs root)
 
 def EnvWF1 (env : Env) : Prop := ∀ p, p ∈ env → WF1 env p.2
+
+theorem declaresTyped_objLike {env : Env} {ik : Bool} {disc : String} {t : Ty} (h : declaresTyped env ik disc t) :
+    ObjLike env t := by
+  cases t <;> simp only [declaresTyped] at h <;> simp only [ObjLike]
+  · obtain ⟨oid, ps, _, hl, _⟩ := h; exact ⟨oid, ps, hl⟩
+  · obtain ⟨oid, ps, _, hl, _⟩ := h; exact ⟨oid, ps, hl⟩
 
 theorem mem_of_hasKey {α} {k : String} {m : List (String × α)} (h : hasKey k m = true) : ∃ v, (k, v) ∈ m := by
   simp only [hasKey] at h
@@ -701,38 +1068,56 @@ theorem memberOK_obj (x : Ext) (n : Nat) (env : Env) (id : String) (props : List
     simp at h4
     exact ⟨wm, by simp [toStrAny, MapShape.strAny, h4], fun k => hasKey_eq_of_keys (allSV_keys (forSV_ok_iff.mp h3)) k⟩
 
-theorem rt_aux (x : Ext) : ∀ (n : Nat) (env : Env) (t : Ty), EnvWF1 env → WF1 env t →
-    RT (run x n) env t ∧ (ObjLike env t → ∀ disc, ¬ declares env disc t → MemberOK (run x n) env t disc)
+/-- the three facts the induction carries: the round trip itself, and what a one-of one level up
+    needs from this schema as a member (non-inlined / inlined) -/
+def RTAux (x : Ext) (n : Nat) (env : Env) (t : Ty) : Prop :=
+  RT (run x n) env t ∧
+  (ObjLike env t → ∀ disc, ¬ declares env disc t → MemberOK (run x n) env t disc) ∧
+  (∀ ik disc, declaresTyped env ik disc t → MemberInl (run x n) x env t ik disc)
+
+theorem rtAux_leaf {x : Ext} {n : Nat} {env : Env} {t : Ty} (h : RT (run x n) env t)
+    (hno : ¬ ObjLike env t) : RTAux x n env t :=
+  ⟨h, fun ho => absurd ho hno, fun _ _ hd => absurd (declaresTyped_objLike hd) hno⟩
+
+theorem rt_aux' (x : Ext) : ∀ (n : Nat) (env : Env) (t : Ty), EnvWF1 env → WF1 env t → RTAux x n env t
   | 0, env, t, _, _ => by
-    refine ⟨fun v r h => by simp [run] at h, fun _ disc _ => ⟨fun v r h => by simp [run] at h, fun rm w h => by simp [run] at h⟩⟩
+    refine ⟨fun v r h => by simp [run] at h, fun _ disc _ => ⟨fun v r h => by simp [run] at h, fun rm w h => by simp [run] at h⟩,
+      fun _ _ _ => ⟨fun v r h => by simp [run] at h, fun m rm d key h => by simp [run] at h, fun rm w h => by simp [run] at h⟩⟩
   | n + 1, env, t, henv, hwf => by
-    have ih := rt_aux x n
+    have ih := rt_aux' x n
     cases hwf with
-    | int => exact ⟨rt_int x n env _ _ _, fun h => by simp [ObjLike] at h⟩
-    | float => exact ⟨rt_float x n env _ _ _, fun h => by simp [ObjLike] at h⟩
-    | str => exact ⟨rt_str x n env _ _ _, fun h => by simp [ObjLike] at h⟩
-    | bool => exact ⟨rt_bool x n env, fun h => by simp [ObjLike] at h⟩
-    | pattern => exact ⟨rt_pattern x n env, fun h => by simp [ObjLike] at h⟩
-    | enumInt => exact ⟨rt_enumInt x n env _ _, fun h => by simp [ObjLike] at h⟩
-    | enumStr => exact ⟨rt_enumStr x n env _, fun h => by simp [ObjLike] at h⟩
-    | any => exact ⟨rt_any x n env, fun h => by simp [ObjLike] at h⟩
-    | list hi => exact ⟨rt_list x n env _ _ _ (ih env _ henv hi).1, fun h => by simp [ObjLike] at h⟩
+    | int => exact rtAux_leaf (rt_int x n env _ _ _) (by simp [ObjLike])
+    | float => exact rtAux_leaf (rt_float x n env _ _ _) (by simp [ObjLike])
+    | str => exact rtAux_leaf (rt_str x n env _ _ _) (by simp [ObjLike])
+    | bool => exact rtAux_leaf (rt_bool x n env) (by simp [ObjLike])
+    | pattern => exact rtAux_leaf (rt_pattern x n env) (by simp [ObjLike])
+    | enumInt => exact rtAux_leaf (rt_enumInt x n env _ _) (by simp [ObjLike])
+    | enumStr => exact rtAux_leaf (rt_enumStr x n env _) (by simp [ObjLike])
+    | any => exact rtAux_leaf (rt_any x n env) (by simp [ObjLike])
+    | list hi => exact rtAux_leaf (rt_list x n env _ _ _ (ih env _ henv hi).1) (by simp [ObjLike])
     | map hk hv =>
-      exact ⟨rt_map x n env _ _ _ _ (ih env _ henv hk).1 (ih env _ henv hv).1, fun h => by simp [ObjLike] at h⟩
+      exact rtAux_leaf (rt_map x n env _ _ _ _ (ih env _ henv hk).1 (ih env _ henv hv).1) (by simp [ObjLike])
     | obj hp =>
-      refine ⟨rt_obj x n env _ _ (fun np hnp => (ih env _ henv (hp np hnp)).1), fun _ disc hnd => ?_⟩
-      exact memberOK_obj x n env _ _ disc (by simpa [declares] using hnd)
+      refine ⟨rt_obj x n env _ _ (fun np hnp => (ih env _ henv (hp np hnp)).1), fun _ disc hnd => ?_, fun ik disc hd => ?_⟩
+      · exact memberOK_obj x n env _ _ disc (by simpa [declares] using hnd)
+      · simp only [declaresTyped] at hd
+        obtain ⟨p, hp', hT⟩ := hd
+        exact memberInl_obj x n env _ _ ik disc p hp' hT
     | oneOf hm ho hd =>
-      refine ⟨?_, fun h => by simp [ObjLike] at h⟩
+      refine rtAux_leaf ?_ (by simp [ObjLike])
       exact rt_oneOf x n env _ _ _ (fun m hmm => (ih env _ henv (hm m hmm)).1)
-        (fun m hmm => (ih env _ henv (hm m hmm)).2 (ho m hmm) _ (hd m hmm))
+        (fun m hmm => (ih env _ henv (hm m hmm)).2.1 (ho m hmm) _ (hd m hmm))
+    | oneOfInl hm hd =>
+      refine rtAux_leaf ?_ (by simp [ObjLike])
+      exact rt_oneOf_inl x n env _ _ _ (fun m hmm => (ih env _ henv (hm m hmm)).1)
+        (fun m hmm => (ih env _ henv (hm m hmm)).2.2 _ _ (hd m hmm))
     | ref hl =>
       rename_i id o
       have ho : WF1 env o := henv _ (lookupS_mem hl)
-      obtain ⟨hrt, hmo⟩ := ih env o henv ho
+      obtain ⟨hrt, hmo, hmi⟩ := ih env o henv ho
       have hrun : ∀ op v, run x (n + 1) op env (.ref id) v = run x n op env o v := by
         intro op v; simp [run, hl]
-      refine ⟨?_, fun hobj disc hnd => ?_⟩
+      refine ⟨?_, fun hobj disc hnd => ?_, fun ik disc hd => ?_⟩
       · intro v r h
         rw [hrun] at h
         obtain ⟨h1, w, h2, h3⟩ := hrt v r h
@@ -745,13 +1130,21 @@ theorem rt_aux (x : Ext) : ∀ (n : Nat) (env : Env) (t : Ty), EnvWF1 env → WF
           exact hnd ⟨oid, ps, hl, hd⟩
         obtain ⟨m1, m2⟩ := hmo (by simp [ObjLike]) disc hnd'
         exact ⟨fun v r h => m1 v r (by rw [hrun] at h; exact h), fun rm w h => m2 rm w (by rw [hrun] at h; exact h)⟩
+      · simp only [declaresTyped] at hd
+        obtain ⟨oid, ps, p, hl', hp', hT⟩ := hd
+        rw [hl] at hl'
+        cases hl'
+        obtain ⟨m1, m2, m3⟩ := hmi ik disc (by simp only [declaresTyped]; exact ⟨p, hp', hT⟩)
+        exact ⟨fun v r h => m1 v r (by rw [hrun] at h; exact h),
+          fun m rm d key h => m2 m rm d key (by rw [hrun] at h; exact h),
+          fun rm w h => m3 rm w (by rw [hrun] at h; exact h)⟩
     | scope hl hobjs =>
       rename_i objs root o
       have ho : WF1 objs o := hobjs _ (lookupS_mem hl)
-      obtain ⟨hrt, hmo⟩ := ih objs o hobjs ho
+      obtain ⟨hrt, hmo, hmi⟩ := ih objs o hobjs ho
       have hrun : ∀ op v, run x (n + 1) op env (.scope objs root) v = run x n op objs o v := by
         intro op v; simp [run, hl]
-      refine ⟨?_, fun hobj disc hnd => ?_⟩
+      refine ⟨?_, fun hobj disc hnd => ?_, fun ik disc hd => ?_⟩
       · intro v r h
         rw [hrun] at h
         obtain ⟨h1, w, h2, h3⟩ := hrt v r h
@@ -764,5 +1157,18 @@ theorem rt_aux (x : Ext) : ∀ (n : Nat) (env : Env) (t : Ty), EnvWF1 env → WF
           exact hnd ⟨oid, ps, hl, hd⟩
         obtain ⟨m1, m2⟩ := hmo (by simp [ObjLike]) disc hnd'
         exact ⟨fun v r h => m1 v r (by rw [hrun] at h; exact h), fun rm w h => m2 rm w (by rw [hrun] at h; exact h)⟩
+      · simp only [declaresTyped] at hd
+        obtain ⟨oid, ps, p, hl', hp', hT⟩ := hd
+        rw [hl] at hl'
+        cases hl'
+        obtain ⟨m1, m2, m3⟩ := hmi ik disc (by simp only [declaresTyped]; exact ⟨p, hp', hT⟩)
+        exact ⟨fun v r h => m1 v r (by rw [hrun] at h; exact h),
+          fun m rm d key h => m2 m rm d key (by rw [hrun] at h; exact h),
+          fun rm w h => m3 rm w (by rw [hrun] at h; exact h)⟩
+
+/-- the statement under its previous name and shape (round trip + the non-inlined member facts) -/
+theorem rt_aux (x : Ext) (n : Nat) (env : Env) (t : Ty) (henv : EnvWF1 env) (hwf : WF1 env t) :
+    RT (run x n) env t ∧ (ObjLike env t → ∀ disc, ¬ declares env disc t → MemberOK (run x n) env t disc) :=
+  ⟨(rt_aux' x n env t henv hwf).1, (rt_aux' x n env t henv hwf).2.1⟩
 
 end Arca
